@@ -391,6 +391,19 @@ def c06(obs):
                 if (None if a is None else a[:5]) != (None if b is None else b[:5]):
                     v.append(('C06', 'ConcatSource: character %d of child %d is attributed to %r by the child alone but to %r inside the concatenation' % (i, k, a and a[:5], b and b[:5]))); return v
             off += len(ct)
+        # the same by generated POSITION: what the concatenation reports at the true position of every character of child k
+        # (a child whose own end position is wrong shifts its successors)
+        opos, _ = positions(src)
+        ost = stream_attr(outer)
+        off = 0
+        for k, ch in enumerate(tree['children']):
+            sub = subs['child%d' % k]; ct = sub['source']
+            cpos, _ = positions(ct); cst = stream_attr(sub['streams']['c1f0'])
+            for i in range(len(ct)):
+                a = lookup(cst, cpos[i][0], cpos[i][1]); b = lookup(ost, opos[off + i][0], opos[off + i][1])
+                if a != b:
+                    v.append(('C06', 'ConcatSource: the character at output position %r (character %d of child %d) is attributed to %r by the child at its own position %r but to %r by the concatenation' % (opos[off + i], i, k, a, cpos[i], b))); return v
+            off += len(ct)
     elif tree['kind'] == 'replace':
         sub = subs.get('inner')
         if sub is None: return v
